@@ -35,11 +35,15 @@ def mk_bf(rp):
         elif e.get('role') != 'added': s.probs.append('%s bound to %s whose role is %s' % (task['uid'], pid, e.get('role')))
         elif not (lo <= rps._pilot_state_value(e['state']) <= hi):
             s.probs.append('%s bound to %s in state %s (not eligible)' % (task['uid'], pid, e['state']))
+        elif pid in s.truth and not (lo <= rps._pilot_state_value(s.truth[pid]) <= hi):
+            s.probs.append('%s bound to %s, which has reached state %s (a late notification of an earlier state moved the scheduler\'s view back to %s)'
+                           % (task['uid'], pid, s.truth[pid], e['state']))
         elif used_before >= info['hwm']:
             s.probs.append('%s bound to %s which was already at its high-water mark (%d cores used, mark %d)'
                            % (task['uid'], pid, used_before, info['hwm']))
         return real_assign(task, pilot)
     s._assign_pilot = assign
+    s.truth = dict()          # pid -> the furthest state any notification has reported
     def advance(things, state=None, **kw):
         for t in (things if isinstance(things, list) else [things]):
             s.fwd.append((t['uid'], t.get('pilot'), state))
@@ -54,6 +58,9 @@ def run_history(rp, ops):
     for op in ops:
         try:
             if op[0] == 'add':               # ('add', pid, cores, state)
+                import radical.pilot.states as rps
+                if op[1] not in s.truth or rps._pilot_state_value(op[3]) > rps._pilot_state_value(s.truth[op[1]]):
+                    s.truth[op[1]] = op[3]
                 rr_cmd(s, 'add_pilots', pilots=[{'uid': op[1], 'state': op[3], 'description': {'cores': op[2]}}])
                 added.add(op[1])
             elif op[0] == 'remove':
@@ -61,10 +68,14 @@ def run_history(rp, ops):
                     rr_cmd(s, 'remove_pilots', pids=[op[1]]); added.discard(op[1])
             elif op[0] == 'pstate':          # ('pstate', pid, state)
                 import radical.pilot.states as rps
-                cur = (s._pilots.get(op[1]) or {}).get('state')
-                # a notification that moves the pilot forward (the transport delivers no other)
-                if op[1] in s._pilots and cur not in rps.FINAL and \
-                   rps._pilot_state_value(op[2]) >= rps._pilot_state_value(cur or 'NEW'):
+                # notifications may arrive late and out of order (C14): the scheduler's view
+                # must not move backwards; `truth` is the furthest state reported so far
+                if op[1] in s._pilots:
+                    t0 = s.truth.get(op[1], 'NEW')
+                    if t0 in rps.FINAL and op[2] in rps.FINAL and op[2] != t0:
+                        continue              # two contradicting final states: refused by design (ValueError), not part of C12
+                    if t0 not in rps.FINAL and rps._pilot_state_value(op[2]) > rps._pilot_state_value(t0):
+                        s.truth[op[1]] = op[2]
                     s._update_pilot_states([{'uid': op[1], 'state': op[2]}])
             elif op[0] == 'submit':          # ('submit', [cores, ...])
                 batch = []
@@ -106,6 +117,7 @@ DIRECTED = [
     ('fill-to-the-mark-then-more', [('add', 'p1', 2, 'PMGR_ACTIVE'), ('submit', [1, 1, 1, 1]), ('submit', [1, 1]), ('finish', 1), ('finish', 5)]),
     ('pilot-not-active-yet', [('add', 'p1', 4, 'PMGR_LAUNCHING'), ('submit', [1, 1]), ('pstate', 'p1', 'PMGR_ACTIVE'), ('finish', 2)]),
     ('pilot-gone', [('add', 'p1', 2, 'PMGR_ACTIVE'), ('submit', [1]), ('pstate', 'p1', 'DONE'), ('submit', [1, 1]), ('finish', 1)]),
+    ('late-notification-after-the-pilot-failed', [('add', 'p1', 2, 'PMGR_ACTIVE'), ('pstate', 'p1', 'FAILED'), ('pstate', 'p1', 'PMGR_ACTIVE'), ('submit', [1, 1])]),
     ('removed-pilot-gets-nothing', [('add', 'p1', 2, 'PMGR_ACTIVE'), ('add', 'p2', 2, 'PMGR_ACTIVE'), ('remove', 'p1'), ('submit', [1, 1, 1, 1, 1, 1]), ('finish', 6)]),
     ('two-pilots-balance', [('add', 'p1', 1, 'PMGR_ACTIVE'), ('add', 'p2', 4, 'PMGR_ACTIVE'), ('submit', [1] * 12), ('finish', 3), ('finish', 9)]),
     ('big-task-last', [('add', 'p1', 4, 'PMGR_ACTIVE'), ('submit', [3, 3, 3, 4]), ('finish', 2), ('finish', 2)]),
@@ -121,7 +133,7 @@ def random_histories(rp, n_hist, seed):
             r = rnd.random()
             if r < 0.2:   ops.append(('add', rnd.choice(pids), rnd.choice((1, 2, 4)), rnd.choice(('PMGR_ACTIVE', 'PMGR_ACTIVE', 'PMGR_LAUNCHING'))))
             elif r < 0.3: ops.append(('remove', rnd.choice(pids)))
-            elif r < 0.45: ops.append(('pstate', rnd.choice(pids), rnd.choice(('PMGR_ACTIVE', 'PMGR_ACTIVE', 'DONE', 'FAILED'))))
+            elif r < 0.45: ops.append(('pstate', rnd.choice(pids), rnd.choice(('PMGR_ACTIVE', 'PMGR_ACTIVE', 'PMGR_LAUNCHING', 'DONE', 'FAILED'))))
             elif r < 0.75: ops.append(('submit', [rnd.choice((1, 1, 2, 3)) for _ in range(rnd.randint(1, 5))]))
             else: ops.append(('finish', rnd.randint(1, 4)))
         # a pilot is added once at a time (TaskManager refuses a second add)
